@@ -38,7 +38,7 @@ def run(ctx):
     pool = os.path.join(ctx.work, "dnspool.ndjson")
     ps = ctx.vh(["dns-pool", "out=" + pool])
     ctx.extra["pool"] = ps["note"]
-    r = ctx.tlc("MC_DNSEngine", CFG % (3 if ctx.tier == "quick" else 4), files={"dnspool.ndjson": pool}, timeout=2400)
+    r = ctx.tlc("MC_DNSEngine", CFG % (3 if ctx.tier == "quick" else 5), files={"dnspool.ndjson": pool}, timeout=2400)
     recs = [x for x in r.records if x.get("kind") == "CASE"]
     s, mism = replay_cases(ctx, pool, recs)
     ctx.evaluations += s["evaluations"]
@@ -59,7 +59,7 @@ def run(ctx):
     # ---- code -> spec: hosts file + DNS filter of the repository ----
     tr = os.path.join(ctx.work, "dns-trace.ndjson")
     quick = ctx.tier == "quick"
-    d = ctx.vh(["drive-dnslists", "n=%d" % (600 if quick else 12000), "rules=%d" % (4000 if quick else 40000), "out=" + tr], timeout=3000)
+    d = ctx.vh(["drive-dnslists", "n=%d" % (600 if quick else 30000), "rules=%d" % (4000 if quick else 60000), "out=" + tr], timeout=3000)
     nev, rejects = ctx.validate_trace("Trace_DNSEngine", tr, chunk=3000, procs=(2 if quick else 8))
     ctx.validated += nev - len(rejects)
     ctx.evaluations += nev
